@@ -161,6 +161,8 @@ type State struct {
 	epoch   int
 	localStats SolverStats
 	noted map[*ssa.Function]bool
+	constCache map[int]*Term
+	hadCandidate bool
 	choicesPinned map[string]int64
 	concreteFails []string
 }
@@ -479,6 +481,7 @@ func signExt(u uint64, w int) int64 {
 }
 
 func (st *State) recordCandidate(c Candidate, kf string) {
+	st.hadCandidate = true
 	st.res.mu.Lock()
 	defer st.res.mu.Unlock()
 	key := c.Label + "|" + kf
@@ -669,7 +672,7 @@ func (e *Engine) finishPath(st *State, end pathEnd) {
 	// things that need the solver come first (no lock held)
 	var sample string
 	var valid *Candidate
-	if end.status == "ok" && st.concrete == nil {
+	if end.status == "ok" && st.concrete == nil && !st.hadCandidate {
 		res.mu.Lock()
 		n := res.PathsOK
 		res.mu.Unlock()
@@ -778,4 +781,47 @@ func sortedKeys(m map[string]int) []string {
 	}
 	sort.Strings(ks)
 	return ks
+}
+
+// tryConst asks the solver whether a scalar term has exactly one value under the path
+// condition; if so the constant is returned (solver-aided constant propagation, used before
+// a transcendental function would otherwise become an uninterpreted application).
+func (st *State) tryConst(t *Term) *Term {
+	if t.isConst() || st.solver == nil || st.concrete != nil {
+		return t
+	}
+	if t.sort != SF64 && !t.sort.isBV() {
+		return t
+	}
+	if c, ok := st.constCache[t.id]; ok {
+		if c == nil {
+			return t
+		}
+		return c
+	}
+	if st.constCache == nil {
+		st.constCache = map[int]*Term{}
+	}
+	st.constCache[t.id] = nil
+	if st.check() != Sat {
+		return t
+	}
+	mv, ok := st.solver.GetValues(st.ts, []*Term{t})
+	if !ok {
+		return t
+	}
+	var c *Term
+	var ne *Term
+	if t.sort == SF64 {
+		c = st.ts.F64(mv[t.id].F)
+		ne = st.ts.Not(st.ts.intern(&Term{op: OEq, sort: SBool, args: []*Term{t, c}}))
+	} else {
+		c = st.ts.BV(t.sort.width(), mv[t.id].U)
+		ne = st.ts.Not(st.ts.Eq(t, c))
+	}
+	if st.check(ne) != Unsat {
+		return t
+	}
+	st.constCache[t.id] = c
+	return c
 }
